@@ -35,14 +35,32 @@ def handle (op : String) (req : Json) : R Json := do
     let fit := updateLinreg wt rows
     let l := fitPts wt rows
     let fitted := !rows.isEmpty && (usableRows rows).length ≥ 2
-    -- specification: textbook centred form and squared weighted correlation
+    -- specification: textbook centred form, squared weighted correlation, residual variance with raw sums
     let spec : Json :=
       if fitted then
         jObj [("gradient", jRat (specGradient l)), ("intercept", jRat (specIntercept l)),
-              ("rsq", jRat (specRsq l))]
+              ("rsq", jRat (specRsq l)), ("err2", jRat (specErr2 l))]
       else jFit identityFit
+    -- the `weights` attribute, entry by entry (independent of `weightsFromWeighting`)
+    let col : List V := match wt with
+      | .builtin b => rows.map (fun r => if b.onY then r.y else r.x)
+      | .custom => []
+    let specW : List V := match wt with
+      | .builtin b => specWeights col b.kind
+      | .custom => rows.map (·.cw)
     pure (jObj [
       ("weights", jList jV (weights wt rows)),
+      ("spec_weights", jList jV specW),
+      -- the clause "a zero concentration never produces an infinite or NaN weight" is demanded under the
+      -- quantifier's precondition - two usable rows with distinct concentrations - where (for the x-based
+      -- weightings by `two_levels_hasNonzero`, for the y-based ones because responses are positive) some entry
+      -- of the column the weights are derived from is finite and not zero (`weights_finite_of_nonzero`)
+      ("weights_finite_required", jBool (match wt with
+        | .builtin _ =>
+          let us := usableRows rows
+          us.any (fun p => us.any (fun q => decide (p.x ≠ q.x))) && hasNonzero col
+        | .custom => false)),
+      ("spec_weights_finite", jBool (finiteAtFinite col specW)),
       ("fit_weights", jList jRat (l.map (·.w))),
       ("usable", jNat (usableRows rows).length),
       ("fitted", jBool fitted),
@@ -62,10 +80,12 @@ def handle (op : String) (req : Json) : R Json := do
     let resp ← getList (asOpt asRat) req "responses"
     let conc ← getList (asOpt asRat) req "concentrations"
     -- model: the code's arithmetic on the responses actually passed;
-    -- spec: calibrate on the exact points of the line (= the concentrations, `calibrate_inverts`)
+    -- spec: the concentrations themselves (`calibrate_inverts`: the mechanism on the exact points of the line
+    -- returns them); `on_line` is that theorem evaluated on this case
     pure (jObj [
       ("model", jList jV (resp.map (calibrate g c))),
-      ("spec", jList jV (conc.map (fun x => calibrate g c (x.map (fun q => g * q + c)))))])
+      ("spec", jList jV conc),
+      ("on_line", jBool (decide (conc.map (fun x => calibrate g c (x.map (fun q => g * q + c))) = conc)))])
   | _ => throw s!"unknown op {op}"
 
 end PewDriver.C06
